@@ -103,8 +103,8 @@ static void sweep (int cmd, int format, int ch, int state, const MEMF *base, int
 }
 
 int main (int argc, char **argv)
-{	static const int fmts [][2] = { { SF_FORMAT_WAV | SF_FORMAT_PCM_16, 2 }, { SF_FORMAT_WAV | SF_FORMAT_FLOAT, 1 }, { SF_FORMAT_WAVEX | SF_FORMAT_PCM_24, 2 }, { SF_FORMAT_RF64 | SF_FORMAT_PCM_16, 2 }, { SF_FORMAT_AIFF | SF_FORMAT_PCM_16, 2 },
-		{ SF_FORMAT_AIFF | SF_FORMAT_FLOAT, 1 }, { SF_FORMAT_CAF | SF_FORMAT_PCM_16, 2 }, { SF_FORMAT_CAF | SF_FORMAT_DOUBLE, 1 }, { SF_FORMAT_RAW | SF_FORMAT_PCM_16, 2 }, { SF_FORMAT_RAW | SF_FORMAT_FLOAT, 1 }, { SF_FORMAT_WAVEX | SF_FORMAT_FLOAT, 6 }, { SF_FORMAT_RF64 | SF_FORMAT_FLOAT, 1 } } ;
+{	static const int fmts [][2] = { { SF_FORMAT_WAV | SF_FORMAT_PCM_16, 2 }, { SF_FORMAT_WAV | SF_FORMAT_FLOAT, 2 }, { SF_FORMAT_WAVEX | SF_FORMAT_PCM_24, 2 }, { SF_FORMAT_RF64 | SF_FORMAT_PCM_16, 2 }, { SF_FORMAT_AIFF | SF_FORMAT_PCM_16, 2 },
+		{ SF_FORMAT_AIFF | SF_FORMAT_FLOAT, 1 }, { SF_FORMAT_CAF | SF_FORMAT_PCM_16, 2 }, { SF_FORMAT_CAF | SF_FORMAT_DOUBLE, 3 }, { SF_FORMAT_RAW | SF_FORMAT_PCM_16, 2 }, { SF_FORMAT_RAW | SF_FORMAT_FLOAT, 1 }, { SF_FORMAT_WAVEX | SF_FORMAT_FLOAT, 6 }, { SF_FORMAT_RF64 | SF_FORMAT_FLOAT, 1 } } ;
 	int f, cmd, st, nf ; static int ids [4000] ; int nids = 0, i ;
 	vh_init (argc, argv, "c17_command_grid", "C17") ;
 	for (i = 0x0FF0 ; i <= 0x1500 ; i++) ids [nids++] = i ;
